@@ -1,4 +1,5 @@
 import GoLevel.Model.Cache
+import GoLevel.Model.CacheTable
 /-! Line-protocol handler for the cache (C17).  Stateful.
 
 ```
@@ -11,7 +12,13 @@ cache evict <ns> <key>                     ⇒ <true|false> …
 cache evictns <ns> | cache evictall | cache setcap <c> | cache close <0|1>   ⇒ ok …
 ```
 `c1` = the setFunc ran; `f[..]` the values whose `Release` ran during the call, `d[..]` the delFuncs that ran
-(both ascending); values are numbered in construction order, handles in the order `Get` returned them. -/
+(both ascending); values are numbered in construction order, handles in the order `Get` returned them.
+
+Every line is ALSO answered through the hash-table model (`Model/CacheTable.lean`): each `mBucket.get` /
+`mBucket.delete` the cache model performs (`Instr.bget` / `Instr.delz`) is replayed on a `CacheT.Table` with the
+real `murmur32`, and the tail ends with ` t<Nodes>/<Buckets>/<GrowCount>/<ShrinkCount>` of that table
+(`Cache.Nodes()` and `Cache.GetStats()` on the Go side).  If the table model and the cache model ever disagree on
+a lookup (found / created / deleted) the field is `t!bad`. -/
 namespace GoLevel.Driver
 open GoLevel GoLevel.CacheM
 
@@ -19,15 +26,58 @@ structure CacheSt where
   sh : Shared := Shared.new 0
   hs : List (Nat × Nat) := []   -- outstanding handle number ↦ node id
   nh : Nat := 0
+  tbl : CacheT.Table := CacheT.Table.new
+  tblOk : Bool := true
+
+/-- The table access of one instruction of the cache model, replayed on the table model; `false` when the two
+models disagree on its outcome. -/
+def tableStep (tb : CacheT.Table) (sh : Shared) : Instr → CacheT.Table × Bool
+  | .bget k m =>
+    if sh.closed then (tb, true) else
+    let getOnly := match m with
+      | .get .none => true
+      | .get _ => false
+      | _ => true
+    let r := CacheT.step CacheT.cacheHash tb (.get k.1 k.2 getOnly)
+    let ok := match r.2, findKey sh.nodes k with
+      | .get (.found n), some _ => n.ns == k.1 && n.key == k.2
+      | .get (.created n), none => !getOnly && n.ns == k.1 && n.key == k.2
+      | .get .absent, none => getOnly
+      | _, _ => false
+    (r.1, ok)
+  | .delz k =>
+    if sh.closed then (tb, true) else
+    let zero := match findKey sh.nodes k with
+      | some n => n.ref == 0
+      | none => false
+    -- an absent node: the table must find that out by itself
+    let r := CacheT.step CacheT.cacheHash tb (.delete k.1 k.2 (zero || (findKey sh.nodes k).isNone))
+    (r.1, r.2 == .deleted zero)
+  | _ => (tb, true)
+
+/-- `runInstrs` of the cache model with the table model run alongside. -/
+def runInstrsT : Nat → Shared → CacheT.Table → Bool → List Instr → List Ev →
+    Option (Shared × CacheT.Table × Bool × List Ev)
+  | 0, _, _, _, _, _ => none
+  | _ + 1, s, tb, ok, [], evs => some (s, tb, ok, evs)
+  | f + 1, s, tb, ok, i :: rest, evs =>
+    let r := tableStep tb s i
+    match exec s i with
+    | none => none
+    | some (s', push, e) => runInstrsT f s' r.1 (ok && r.2) (push ++ rest) (evs ++ e)
 
 def showNats (l : List Nat) : String :=
   ",".intercalate ((l.mergeSort (· ≤ ·)).map toString)
 
-def evTail (s : Shared) (evs : List Ev) : String :=
+def tblTail (tb : CacheT.Table) (ok : Bool) : String :=
+  if ok && !tb.bug then s!" t{tb.Nodes}/{tb.Buckets}/{tb.statGrow}/{tb.statShrink}" else " t!bad"
+
+def evTail (st : CacheSt) (evs : List Ev) : String :=
+  let s := st.sh
   let c := evs.any fun e => match e with | .ctor _ _ => true | .ctorNil _ => true | _ => false
   let f := evs.filterMap fun e => match e with | .fin _ v _ => some v | _ => none
   let d := evs.filterMap fun e => match e with | .delf d _ _ => some d | _ => none
-  s!" c{if c then 1 else 0} f[{showNats f}] d[{showNats d}] n{s.Nodes} s{s.Size}"
+  s!" c{if c then 1 else 0} f[{showNats f}] d[{showNats d}] n{s.Nodes} s{s.Size}" ++ tblTail st.tbl st.tblOk
 
 def parseSf (t : String) : Option SetFunc :=
   if t = "-" then some .none
@@ -36,9 +86,9 @@ def parseSf (t : String) : Option SetFunc :=
   else none
 
 def runCall (st : CacheSt) (c : Call) (res : List Ev → CacheSt → CacheSt × String) : Option (CacheSt × String) := do
-  let (sh', evs) ← call st.sh c
-  let (st', r) := res evs { st with sh := sh' }
-  pure (st', r ++ evTail sh' evs)
+  let (sh', tb', ok', evs) ← runInstrsT (callFuel st.sh) st.sh st.tbl st.tblOk (startCall c) []
+  let (st', r) := res evs { st with sh := sh', tbl := tb', tblOk := ok' }
+  pure (st', r ++ evTail st' evs)
 
 def boolRes (evs : List Ev) (st : CacheSt) : CacheSt × String :=
   (st, if evs.any (fun e => e == Ev.retBool true) then "true" else "false")
@@ -60,11 +110,11 @@ def handleCache (st : CacheSt) : List String → Option (CacheSt × String)
     match st.hs.lookup h with
     | some id =>
       runCall { st with hs := st.hs.filter fun p => p.1 != h } (.release id) fun _ st => (st, "ok")
-    | none => pure (st, "ok" ++ evTail st.sh [])
+    | none => pure (st, "ok" ++ evTail st [])
   | ["val", h] => do
     let h ← h.toNat?
     let v := (st.hs.lookup h).bind fun id => (findId st.sh.nodes id).bind (·.value)
-    pure (st, (match v with | some v => s!"v{v}" | none => "nil") ++ evTail st.sh [])
+    pure (st, (match v with | some v => s!"v{v}" | none => "nil") ++ evTail st [])
   | ["del", ns, k, w] => do
     let ns ← ns.toNat?; let k ← k.toNat?
     runCall st (.delete (ns, k) (w == "1")) boolRes
